@@ -291,7 +291,8 @@ tuple fields it is sampled on every run (correspondence run + the generator's ex
 def C07_print_parse_full : Prop := ∀ e, Canon e = true → parse (print e) = .ok e []
 
 /-- **C07_print_parse (partial, character level).** For every expression built from variables and fields named by plain
-identifiers, slices `[l..r]` (each bound absent or below 2^64) and the prefix operators `*`, `&`, `~` — any nesting,
+identifiers, slices `[l..r]` (each bound absent or below 2^64), indexes `[i]` by an integer literal `0 ≤ i < 2^63` and the
+prefix operators `*`, `&`, `~` — any nesting,
 parenthesised where a prefix operator sits under a postfix one — the parser model maps the canonical text back to the
 expression, consuming all of it.  (Inside: the index alternative `[literal]` fails on a slice text and the slice alternative
 takes over; a parenthesised expression is never taken for a pointer cast; decimal printing and `parse::<usize>` are inverse.) -/
@@ -303,6 +304,15 @@ example : frag (.field (.deref (.address (.slice (.field (.var ['a', '1']) ['_',
 example : parse ['(', '*', '&', 'a', '.', 'b', ')', '.', 'c'] = .ok (.field (.deref (.address (.field (.var ['a']) ['b']))) ['c']) [] := by
   have := C07_print_parse_partial (.field (.deref (.address (.field (.var ['a']) ['b']))) ['c']) (by decide)
   simpa [print, printPre, printPost] using this
+
+/-- the example of the documentation for every pair of identifiers and every index: `*a.b[i]` is
+`Deref(Index(Field(a, b), i))` -/
+theorem C07_precedence_example (a b : Str) (i : Nat) (ha : isIdentB a = true) (hb : isIdentB b = true) (hi : i < 2 ^ 63) :
+    parse ('*' :: a ++ '.' :: b ++ '[' :: natText i ++ [']']) = .ok (.deref (.index (.field (.var a) b) (.int i))) [] := by
+  have hi' : (i : Int) < 2 ^ 63 := by exact_mod_cast hi
+  have hneg : ¬ ((i : Int) < 0) := by omega
+  have := C07_print_parse_partial (.deref (.index (.field (.var a) b) (.int i))) (by simp [frag, okPost, ha, hb]; omega)
+  simpa [print, printPre, printPost, printLit, hneg] using this
 
 /-- `a[l..r]` and `(*a)[..r]`, for all identifiers and bounds -/
 theorem C07_parse_slice (a : Str) (l r : Nat) (ha : isIdentB a = true) (hl : l < 2 ^ 64) (hr : r < 2 ^ 64) :
